@@ -9,11 +9,14 @@ import (
 	"context"
 	"fmt"
 	"os"
+	"reflect"
 	"runtime"
 	"sort"
 	"strings"
 	"sync"
 	"time"
+
+	"github.com/whoisnian/glb/tasklane"
 )
 
 // SiteTable identifies the places where the code under test consults its context (ctx.Done() or ctx.Err())
@@ -123,6 +126,41 @@ func locate(pcs []uintptr) (loc siteLoc, chain []string, ok bool) {
 	return loc, outsideIn(lane), true
 }
 
+// pushEntry is the API function whose context calls are the push-role sites: PushTask, named through the symbol
+// the harness itself calls (no naming convention involved). Context calls made inside other API functions the
+// harness calls (New fetching ctx.Done() once, Status, Wait, ...) are not park points.
+var pushEntry = runtime.FuncForPC(reflect.ValueOf((*tasklane.TaskLane).PushTask).Pointer()).Name()
+
+// laneGoroutineChains parses a dump of all goroutines: for every goroutine that has tasklane frames, the
+// function names of those frames, outside in.
+func laneGoroutineChains() [][]string {
+	buf := make([]byte, 1<<20)
+	buf = buf[:runtime.Stack(buf, true)]
+	var res [][]string
+	for _, g := range strings.Split(string(buf), "\n\n") {
+		var inner []string
+		for _, ln := range strings.Split(g, "\n") {
+			if strings.HasPrefix(ln, "\t") || strings.HasPrefix(ln, "goroutine ") || strings.HasPrefix(ln, "created by ") {
+				continue
+			}
+			if i := strings.LastIndex(ln, "("); i > 0 {
+				ln = ln[:i]
+			}
+			if strings.Contains(ln, harnessPkg) {
+				inner = nil // a goroutine of the harness inside an API call, not a lane goroutine
+				break
+			}
+			if strings.Contains(ln, lanePkg) {
+				inner = append(inner, ln)
+			}
+		}
+		if len(inner) > 0 {
+			res = append(res, outsideIn(inner))
+		}
+	}
+	return res
+}
+
 func lcp(a, b []string) int {
 	n := 0
 	for n < len(a) && n < len(b) && a[n] == b[n] {
@@ -144,6 +182,9 @@ func (st *SiteTable) key(pcs [stackDepth]uintptr, n int, live bool) string {
 		}
 	}
 	loc, chain, ok := locate(pcs[:n])
+	if ok && loc.api && chain[0] != pushEntry {
+		ok = false // a context call inside another API function (New, Status, ...): not a point of the protocol
+	}
 	if !ok {
 		if st.frozen {
 			st.cache[pcs] = "X?"
@@ -233,6 +274,15 @@ func (st *SiteTable) Freeze() {
 	for _, r := range st.recs {
 		if !r.loc.api {
 			if n := lcp(r.chain, st.workerChain); st.common < 0 || n < st.common {
+				st.common = n
+			}
+		}
+	}
+	// the lane goroutines as they stand right now (the calibration lane is alive and idle): needed when they never
+	// consult the context themselves (channel fetched once in New), so that no site tells the roles apart
+	if len(st.workerChain) > 0 {
+		for _, c := range laneGoroutineChains() {
+			if n := lcp(c, st.workerChain); st.common < 0 || n < st.common {
 				st.common = n
 			}
 		}
